@@ -115,6 +115,27 @@ impl Scenario for AppAddrScenario {
                 }
             };
             script.push(op);
+            if rng.chance(1, 5) {
+                // a request split into two transport segments that come from different link sources (the second one from the
+                // configured master): it is not a fragment of the configured master and must not be executed or answered
+                if let Op::Request { func, headers, .. } = gen_executed_request(rng, &cfg.points, Dest::Own) {
+                    let bytes = refapp::build_request(refapp::Ctrl::request(rng.below(16) as u8), func, &headers);
+                    if bytes.len() >= 2 {
+                        let cut = rng.urange(1, bytes.len() - 1);
+                        let tseq = rng.below(64) as u8;
+                        let foreign = *rng.pick(&[2u16, 7, 1023, 65519]);
+                        let (first_src, second_src) = if rng.chance(3, 4) { (foreign, cfg.master_addr) } else { (cfg.master_addr, foreign) };
+                        let mut wire = Vec::new();
+                        let mut p1 = vec![0x40 | tseq];
+                        p1.extend_from_slice(&bytes[..cut]);
+                        let mut p2 = vec![0x80 | ((tseq + 1) & 0x3F)];
+                        p2.extend_from_slice(&bytes[cut..]);
+                        wire.extend(crate::verif::refcodec::link::build_frame(&crate::verif::refcodec::link::RefFrame { ctrl: 0xC4, dest: cfg.outstation_addr, src: first_src, payload: p1 }));
+                        wire.extend(crate::verif::refcodec::link::build_frame(&crate::verif::refcodec::link::RefFrame { ctrl: 0xC4, dest: cfg.outstation_addr, src: second_src, payload: p2 }));
+                        script.push(Op::WireBytes(wire));
+                    }
+                }
+            }
             if rng.chance(1, 4) {
                 // a legitimate request afterwards: the outstation keeps serving its master
                 script.push(simple_request(refapp::FUNC_DELAY_MEASURE, vec![]));
@@ -184,6 +205,44 @@ impl Oracle for AddrOracle {
             0
         };
         let mut violation = None;
+        if let (Op::WireBytes(wire), true) = (&step.op, step.link_up) {
+            // user-data frames of one step that come from different link sources never make up a fragment of the master
+            let mut sources: Vec<u16> = Vec::new();
+            let mut pos = 0usize;
+            while pos < wire.len() {
+                match crate::verif::refcodec::link::candidate(&wire[pos..]) {
+                    crate::verif::refcodec::link::Candidate::Frame(f, len) => {
+                        if f.ctrl & 0x0F == 0x04 && f.dest == self.own {
+                            sources.push(f.src);
+                        }
+                        pos += len;
+                    }
+                    _ => break,
+                }
+            }
+            sources.dedup();
+            if sources.len() >= 2 && !self.any_master {
+                self.bump("probe.fragment_from_mixed_sources");
+                if state != 0 {
+                    self.nontrivial = true;
+                }
+                let sol: Vec<&crate::verif::nodes::peer::RxFragment> = step.received.iter().filter(|r| r.bytes.len() >= 2 && r.bytes[1] == refapp::FUNC_RESPONSE).collect();
+                let mutating: Vec<&Cb> = step.callbacks.iter().map(|c| &c.1).filter(|c| c.is_mutating()).collect();
+                if !mutating.is_empty() || !sol.is_empty() {
+                    violation = Some(Violation::new(
+                        "C07/app foreign-master-executed",
+                        "segments-from-different-sources",
+                        format!(
+                            "step {}: transport segments from link sources {:?} were put together and the fragment was acted on: callbacks {:?}, {} response(s)",
+                            step.op_index,
+                            sources,
+                            mutating,
+                            sol.len()
+                        ),
+                    ));
+                }
+            }
+        }
         if let (Some(s), true) = (&step.sent, step.link_up) {
             let bcast = s.dest >= 0xFFFD;
             let to_us = s.dest == self.own || (s.dest == 0xFFFC && self.self_address);
